@@ -504,7 +504,8 @@ def opCheckAdapterSig (k : Op) : Op :=
       let ca ← Sodium.clampScalar (← Sodium.hSmall H (RT ++ X ++ m)) false
       let caX ← Sodium.multNoclamp C ca X
       let RcaX ← Sodium.aggregatePoints C [Rp, caX]
-      pure (saG == RcaX)) fun ok => pushBool ok k
+      -- a non-canonical `sa` (≥ L, e.g. bit 255 set) denotes the same point: not accepted
+      pure (decide (Sodium.leNat sa < groupL) && saG == RcaX)) fun ok => pushBool ok k
 
 def opDecryptAdapterSig (k : Op) : Op :=
   .pop fun t0 => liftR (Sodium.clampScalar t0 false) fun t => .pop fun Rp => .pop fun sa =>
